@@ -115,3 +115,37 @@ Proof. intros H. unfold on_ready. cbn [andb orb]. rewrite H. reflexivity. Qed.
    (and an edge-triggered poll does not report the writable edge again) *)
 Lemma combined_event_lost_before_fix s orc : on_ready false s (Ready true true) orc = (s, orc).
 Proof. reflexivity. Qed.
+
+(* promises are conserved, in order: what is settled followed by what is queued never changes as a list *)
+Lemma drain_pids : forall fuel s orc,
+  map fst (settled (fst (drain fuel s orc))) ++ pids (fst (drain fuel s orc)) = map fst (settled s) ++ pids s.
+Proof.
+  induction fuel as [|f IH]; intros s orc; [reflexivity|]. cbn [drain].
+  destruct (queue s) as [|e q] eqn:Eq.
+  - cbn [fst settled]. unfold pids. cbn [queue map]. rewrite Eq. reflexivity.
+  - destruct orc as [|[k|] orc']; [reflexivity| |].
+    + destruct (skipn _ (e_rest e)) as [|x r] eqn:Es; rewrite IH; unfold pids; cbn [settled queue]; rewrite Eq; cbn [map e_pid].
+      * rewrite map_app, <- app_assoc. reflexivity.
+      * reflexivity.
+    + cbn [fst settled]. unfold pids. cbn [queue]. rewrite Eq. reflexivity.
+Qed.
+
+(* liveness in the model: whatever happened before (any pattern of short writes and would-blocks), once the
+   descriptor is reported writable and the socket accepts again, every queued write's promise is fulfilled with the
+   full size of its buffer, and nothing stays queued *)
+Lemma all_fulfilled_when_accepted total sz s big extra :
+  Inv total s -> sizes_ok sz s -> Forall (fun e => length (e_rest e) <= big) (queue s) ->
+  let s' := fst (drain (S (length (queue s)) + extra) s (repeat (Acc big) (length (queue s)))) in
+  queue s' = [] /\ wire s' = total
+  /\ map fst (settled s') = map fst (settled s) ++ pids s
+  /\ Forall (fun p => snd p = sz (fst p)) (settled s').
+Proof.
+  intros Hinv Hsz Hbig s'.
+  destruct (drain_accept_all (queue s) s big extra eq_refl Hbig) as [Hq _]. fold s' in Hq.
+  pose proof (drain_inv total (S (length (queue s)) + extra) s (repeat (Acc big) (length (queue s))) Hinv) as Hinv'. fold s' in Hinv'.
+  pose proof (drain_sizes sz (S (length (queue s)) + extra) s (repeat (Acc big) (length (queue s))) (i_entries _ _ Hinv) Hsz) as [Hs' _]. fold s' in Hs'.
+  pose proof (drain_pids (S (length (queue s)) + extra) s (repeat (Acc big) (length (queue s)))) as Hp. fold s' in Hp.
+  split; [exact Hq|]. split.
+  - pose proof (i_stream _ _ Hinv') as Hst. unfold pending in Hst. rewrite Hq in Hst. cbn in Hst. rewrite app_nil_r in Hst. exact Hst.
+  - split; [|exact Hs']. unfold pids in Hp at 1. rewrite Hq in Hp. cbn [map] in Hp. rewrite app_nil_r in Hp. exact Hp.
+Qed.
